@@ -348,6 +348,6 @@ def main(prop, modname, tier, seed, workers, rule, assumptions, fuzz_ignore=()):
     mm['nontrivial'] = len(mm['nontrivial']) + sm.get('nt_sweep', 0)     # sweep cases are distinct (offset, value, text) triples by construction
     mm['errors'] = pm['errors']
     if fz['stats'].get('execs', 0) < 1000:
-        mm['errors'].append('fuzz campaign executed fewer than 1000 inputs (see work/%s/fz_fz_shape/log)' % prop)
+        mm['errors'].append('fuzz campaign executed fewer than 1000 inputs (see work/%s/fz_fz_shape_<pid>/log)' % prop)
     fw.write_evidence(prop, tier, seed, 'exploration', mm, rule + SWEEP_RULE, time.time() - t0, assumptions, extra=dict(fuzz_wall_s=round(fz['wall'], 1)))
     return fw.finish(prop, mm, fw.load_known())
